@@ -247,8 +247,7 @@ def c03_5(ctx):
         ctx.ob(R, "no-reject:" + variant, not errs, "absolute locks are only folded while parsing (checked once per bundle later)")
 
 
-def c03_6(ctx):
-    R = "C03.6"
+def c03_6(ctx, R="C03.6"):
     b, regs = RG.variant_regions(ctx.fb)
     if regs is None:
         return ctx.missing(R, "parse_conditions", "dispatch not found")
